@@ -61,6 +61,15 @@ structure FiberHdr where
 def resumable (status : Nat) : Bool :=
   !(status == statusDead || status == statusError || (statusUser0 ≤ status && status ≤ statusUser4) || status ≥ statusAlive)
 
+/-- statuses for which `unmarshal_one_fiber` insists on a safe resume point (everything but dead / error / user0-4;
+    this includes `alive`, which `janet_check_can_resume` refuses anyway) -/
+def mustCheckResume (status : Nat) : Bool :=
+  !(status == statusDead || status == statusError || (statusUser0 ≤ status && status ≤ statusUser4))
+
+theorem resumable_mustCheck (s : Nat) (h : resumable s = true) : mustCheckResume s = true := by
+  simp only [resumable, mustCheckResume, Bool.not_eq_true', Bool.or_eq_false_iff] at h ⊢
+  exact ⟨⟨h.1.1.1, h.1.1.2⟩, h.1.2⟩
+
 /-- the frame loop: `stack`, `stacktop` are the C variables; records are consumed while `stack > 0` -/
 def acceptFrames (C : Checks) : List FrameRec → Nat → Int → Bool → Bool
   | [], stack, _, _ => stack == 0                    -- input exhausted: MARSH_EOS panics unless the loop is over
@@ -80,7 +89,7 @@ def acceptFiber (C : Checks) (h : FiberHdr) (frames : List FrameRec) : Bool :=
   acceptFrames C frames h.frame ((h.stackstart : Int) - frameSizeWords) true &&
   (!C.statusRange || decide (h.status ≤ statusAlive)) &&
   (!C.frame0 || !(h.frame == 0 && h.status != statusDead)) &&
-  (!C.resumeOperand || !(decide (0 < h.frame) && resumable h.status) ||
+  (!C.resumeOperand || !(decide (0 < h.frame) && mustCheckResume h.status) ||
     match frames with
     | [] => false
     | fr :: _ => (h.noUseval || fr.aIsSlot) && (h.noSkip || decide (fr.pcdiff + 1 < fr.bclen)))
